@@ -335,6 +335,13 @@ struct ValueFlowAnalyzer : Analyzer {
             assert(!result.empty());
             ValueFlow::Value rhsValue{result.front()};
             if (evalAssignment(*value, getAssign(tok->astParent(), d), rhsValue)) {
+                // the result is converted to the type of the assigned variable
+                const ValueType *dst = tok->valueType();
+                if (d == Direction::Forward && dst && value->isIntValue() && !value->isImpossible() && tok->astParent()->str() != "=") {
+                    const size_t sz = dst->getSizeOf(settings, ValueType::Accuracy::ExactOrZero, ValueType::SizeOf::Pointer);
+                    if (sz > 0 && sz < sizeof(MathLib::biguint))
+                        value->intvalue = ValueFlow::truncateIntValue(value->intvalue, sz, dst->sign);
+                }
                 std::string info("Compound assignment '" + tok->astParent()->str() + "', assigned value is " +
                                  value->infoString());
                 if (tok->astParent()->str() == "=")
